@@ -134,6 +134,43 @@ def prove(prop, thorough):
 
 
 # ------------------------------------------------------------------------------------------------
+# source fingerprints: not an obligation — a trigger.  When a library source file differs (comments and whitespace
+# aside) from the text the hand-written model was last validated against, the correspondence search is run at the
+# thorough scale and with a second seed, so that a change whose effect lies in a rarely generated regime has a better
+# chance of producing a concrete failing input.  A differing fingerprint alone never produces a VIOLATION.
+
+def _norm_source(text):
+    text = re.sub(r"//[^\n]*", "", text)
+    text = re.sub(r"/\*.*?\*/", "", text, flags=re.S)
+    return re.sub(r"\s+", " ", text).strip()
+
+
+def source_fingerprints():
+    out = {}
+    src = os.path.join(REPO, "src")
+    for root, _, files in os.walk(src):
+        for fn in sorted(files):
+            if not fn.endswith(".rs") or fn == "tests.rs" or "/bin" in root:
+                continue
+            path = os.path.join(root, fn)
+            text = open(path).read()
+            cut = text.find("#[cfg(test)]\nmod tests {")
+            if cut >= 0:
+                text = text[:cut]
+            out[os.path.relpath(path, REPO)] = hashlib.sha256(_norm_source(text).encode()).hexdigest()[:16]
+    return out
+
+
+def changed_sources():
+    path = os.path.join(ROOT, "tools", "source_fingerprints.json")
+    if not os.path.exists(path):
+        return []
+    ref = json.load(open(path))
+    cur = source_fingerprints()
+    return sorted(f for f in set(ref) | set(cur) if ref.get(f) != cur.get(f))
+
+
+# ------------------------------------------------------------------------------------------------
 # step 3: build the implementation
 
 def build_harness(profile):
@@ -320,13 +357,19 @@ def check(prop, tier, seed):
     if pr["driver_ok"]:
         jobs = []
         nshards = cfg.get("shards", {}).get(tier, NCPU)
-        scale = "thorough" if (thorough or broken) else "quick"   # a broken obligation intensifies the search
+        changed = changed_sources()
+        if changed:
+            notes.append("library sources differ from the fingerprinted text (%s): search intensified" % ", ".join(changed))
+        # a broken obligation, or a source file that changed since the model was validated, intensifies the search
+        scale = "thorough" if (thorough or broken or changed) else "quick"
+        seeds = [seed, seed + 1] if (changed and not thorough) else [seed]
         with ThreadPoolExecutor(max_workers=NCPU) as ex:
             for pf, binp in bins.items():
                 for gen in cfg["gens"]:
-                    for sh_i in range(nshards):
-                        jobs.append(ex.submit(correspond_shard, binp, pf, gen, scale, seed, sh_i, nshards,
-                                              cfg.get("timeout", 1500 if thorough else 300)))
+                    for sd in seeds:
+                        for sh_i in range(nshards):
+                            jobs.append(ex.submit(correspond_shard, binp, pf, gen, scale, sd, sh_i, nshards,
+                                                  cfg.get("timeout", 1500 if (thorough or scale == "thorough") else 300)))
             results = [j.result() for j in jobs]
         # corpus of minimised past failures: always run, in every profile
         cdir = os.path.join(ROOT, "corpus", prop)
@@ -399,8 +442,10 @@ def check(prop, tier, seed):
             if k:
                 known_hits.append((k, ne))
                 continue
-            sig = (ne["recipe"].split()[0:3].__str__(), ne["profile"])
-            if sig in seen_sig and len(violations) >= 3:
+            sig = (ne["recipe"].split()[0:2].__str__(), ne["profile"])
+            if (sig in seen_sig and len(violations) >= 3) or len(violations) >= 8:
+                suppressed = stats.get("violations_not_listed", 0) + 1
+                stats["violations_not_listed"] = suppressed
                 continue
             seen_sig.add(sig)
             head, body = group_of(ne["_r"]["transcript"], ne["line"])
@@ -501,6 +546,11 @@ def replay(path):
 
 
 def main():
+    if len(sys.argv) >= 2 and sys.argv[1] == "--fingerprint":
+        with open(os.path.join(ROOT, "tools", "source_fingerprints.json"), "w") as f:
+            json.dump(source_fingerprints(), f, indent=1, sort_keys=True)
+        print("fingerprints written")
+        sys.exit(0)
     if len(sys.argv) >= 3 and sys.argv[1] == "--replay":
         sys.exit(replay(sys.argv[2]))
     prop = sys.argv[1]
